@@ -2044,11 +2044,11 @@ for _P, _R in (("C07", "R7.12"), ("C05", "R5.14")):
       "            if event_set.to_frozenset() == start_event_types:",
       _R, "only the successor set that names every start event is mirrored: "
       "a body entered through one of two start events loses that branch")
-    M(_P, "dummy-end-no-fallback", SGL,
+    T(_P, "twin-dummy-end-no-fallback", SGL,
       "            end_event.update_in_event_sets([end_event_node.event_type])",
-      "            pass", _R,
-      "an end event without an outside successor leaves no evidence on the "
-      "dummy end")
+      "            pass",
+      "add_end_event_to_graph adds the same singleton set for every end "
+      "event (triaged: was listed as a mutant)")
     M(_P, "dummy-end-wrong-direction", SGL,
       "                for event_set in out_node.in_event_sets:",
       "                for event_set in out_node.event_sets:", _R,
@@ -2063,9 +2063,10 @@ for _P, _R in (("C07", "R7.12"), ("C05", "R5.14")):
       "        if event_lists:\n            for event_list in",
       "        if event_lists and len(event_lists) == 1:\n            for event_list in",
       _R, "recorded exit fan-out dropped when there are several sets")
-    M(_P, "start-not-recorded-as-predecessor", SGL,
+    T(_P, "twin-start-not-recorded-as-predecessor", SGL,
       "        loop_start_event.update_in_event_sets([DUMMY_START_EVENT])\n",
-      "", _R, "loop start events do not learn about the dummy start")
+      "", "no later phase reads the predecessor set {dummy start} of a loop "
+      "start event (triaged: was listed as a mutant)")
     M(_P, "end-edge-reversed", SGL,
       "        graph.add_edge(loop_end_event, end_event)",
       "        graph.add_edge(end_event, loop_end_event)", _R,
